@@ -163,6 +163,14 @@ class FunctionInfo:
         return "<fn %s>" % self.qualname
 
 
+class StaticAlias(FunctionInfo):
+    """`name = staticmethod(f)` in a class body: method `name` of the class, with the body of module function f."""
+
+    @property
+    def decorators(self):
+        return ["staticmethod"]
+
+
 class ClassInfo:
     def __init__(self, qualname, node, module):
         self.qualname = qualname
@@ -213,8 +221,16 @@ class Program:
                 with open(path, encoding="utf-8") as fh:
                     src = fh.read()
                 self.modules[rel] = Module(rel, path, src)
+        self._aliases = []
         for m in self.modules.values():
             self._index(m)
+        for ci, name, m, target in self._aliases:
+            fi = self.resolve_function(target, m)
+            if fi is not None and name not in ci.methods:
+                alias = StaticAlias(ci.qualname + "." + name, fi.node, fi.module, cls=ci)
+                alias.name = name
+                ci.methods[name] = alias
+                self.functions[alias.qualname] = alias
 
     # ------------------------------------------------------------------ indexing
     def _index(self, m):
@@ -246,6 +262,11 @@ class Program:
                     ci = ClassInfo(q, st, m)
                     self.classes[q] = ci
                     visit(st.body, q, ci, None)
+                elif cls is not None and parent is None and isinstance(st, ast.Assign) and len(st.targets) == 1 and isinstance(st.targets[0], ast.Name):
+                    # `name = staticmethod(module_function)` in a class body: the method is that function
+                    v = st.value
+                    if isinstance(v, ast.Call) and isinstance(v.func, ast.Name) and v.func.id == "staticmethod" and len(v.args) == 1 and isinstance(v.args[0], ast.Name) and not v.keywords:
+                        self._aliases.append((cls, st.targets[0].id, m, v.args[0].id))
                 elif isinstance(st, (ast.If, ast.Try, ast.With)):
                     for sub in ("body", "orelse", "finalbody"):
                         visit(getattr(st, sub, []) or [], prefix, cls, parent)
@@ -256,6 +277,17 @@ class Program:
     def fn(self, suffix):
         """Unique function whose qualified name ends with `suffix` (dotted)."""
         hits = [f for q, f in self.functions.items() if q == suffix or q.endswith("." + suffix)]
+        if not hits and suffix.count(".") >= 1:
+            # Class.method where the method is now inherited from a base class inside the repository
+            cname, mname = suffix.rsplit(".", 1)
+            cs = [c for q, c in self.classes.items() if q == cname or q.endswith("." + cname)]
+            if len(cs) == 1:
+                kind = None
+                if "@" in mname:
+                    mname, kind = mname.split("@")
+                m = self.prop(cs[0], mname, kind) if kind else self.method(cs[0], mname)
+                if m is not None:
+                    return m
         if len(hits) != 1:
             raise AnalysisError(
                 "anchor function %r: expected exactly one match, found %d (%s)"
